@@ -32,7 +32,8 @@ MANIFEST = dict(
     technique="TLA+ region map + outcome law (TLC) guiding a byte-level fault sweep (every truncation length / single-byte modification of every file of one log and one metrics segment), each fault answered by a fresh engine process and compared with the undamaged baseline",
     text=("spec/Corruption.tla gives, per file kind (csg incl. timestamp column, cmi, bsu, sst, sfm, pqmr, sort index, rollups, "
           "segmeta line; metrics tso, tsg, tags tree, mnm, mbsu, metricmeta line), the region classes (per checksummed chunk: "
-          "magic, crc, length, encoding byte, payload; bsu record fields; pqmr block fields; ...), the fault classes Flip and "
+          "magic, crc, length, encoding byte, payload; bsu record fields; pqmr block fields; tso: version, count, per series tsid / "
+          "offset lo / offset hi; tsg: version, per series tsid / length lo / length hi / payload; ...), the fault classes Flip and "
           "Trunc(start|inside) and the outcome law QueryOutcome in {Original, SegmentError}, other segments unaffected, process "
           "alive, checksummed regions never Altered; ReadChunk is a transcription of checksumfile.go readChunkAt. TLC proves the "
           "law for the reader without the legacy fallback and lists the faults where the reader as coded goes unverified. "
@@ -45,9 +46,12 @@ MANIFEST = dict(
           "enumerates all. NOT covered: 'arbitrary byte strings fed to each on-disk decoder' (no decoder fuzzing), multi-byte "
           "damage, damage to unrotated (open) segments, agile-tree (.str) files (not produced with aggregations off). Flagged: "
           "(a) altered values served from a checksummed column block (.csg), (b) process exit / panic in the request goroutine, "
-          "(c) hang confirmed on a serial re-run, (d) answers about OTHER segments changed. Rows/columns of the damaged block that "
-          "are silently omitted, and altered answers caused by un-checksummed files (pqmr, sst, bsu, sort index, metrics files), "
-          "are counted in the evidence but are not violations (see docs/C18.md)."),
+          "(c) hang confirmed on a serial re-run, (d) answers about OTHER segments changed (incl. their series coming back under "
+          "another label set), (e) range-checkable damage of an un-checksummed metrics file (high-order bytes of a .tso offset / "
+          ".tsg series length) answered with a silently missing series or altered values and an EMPTY error list. Rows/columns of "
+          "the damaged block that are silently omitted, series missing after damage no range check can see (a changed tsid / tag "
+          "value), and altered answers caused by un-checksummed files (pqmr, sst, bsu, sort index, metrics payloads) are counted "
+          "in the evidence but are not violations (see docs/C18.md)."),
     design_ref="DESIGN.md 4/C18, docs/C18.md",
 )
 
